@@ -341,8 +341,10 @@ pub fn build(
             for function in functions.iter().filter(|f| f.is_public()) {
                 let mut function = function.clone();
                 let original_name = function.name.clone();
-                if associated_functions_used_names.contains(&original_name) {
-                    function.name = format!("{}_{}", base_name, original_name);
+                // Prefix with the base's name until the name is free: the prefixed name
+                // can itself be taken already (by a function the base renamed the same way).
+                while associated_functions_used_names.contains(&function.name) {
+                    function.name = format!("{}_{}", base_name, function.name);
                 }
                 // A function without a receiver cannot be called through the base field
                 // (there is no `self` to reach it from), and does not depend on the object:
